@@ -152,7 +152,15 @@ def run(loader, R, tier):
     R.instance("R39.3", "dispatch tables", sample={
         "free_symbols_dedicated": sorted(short(x) for x in dfs),
         "has_symbol_dedicated": sorted(short(x) for x in dhs)})
+    def binds(f):
+        """a binding-aware handler removes symbols from its result or asks
+        the node for its bound variables"""
+        return any((n.get("k") == "mcall" and n.get("n") in (
+            "erase", "get_variables", "get_symbols"))
+            for n in walk(f["body"]))
     for X, f in sorted(dfs.items()):
+        if not binds(f):
+            continue        # a traversal fast path, judged by R39.6
         R.instance("R39.3", short(X))
         if X not in dhs:
             R.violation(
@@ -197,6 +205,124 @@ def run(loader, R, tier):
                         "cache then hides free occurrences of the same "
                         "symbols outside the binder" % (short(X),
                                                         show(n)[:50]))
+
+    # ---------------------------------------------------------------- R39.7
+    # the needle classes: coeff() admits a Symbol or a FunctionSymbol as the
+    # generator and asks has_symbol about it; HasSymbolVisitor must compare
+    # the needle at every class coeff() admits (FunctionSymbol is not a
+    # subclass of Symbol, so the Symbol handler does not cover it)
+    R.rule("R39.7", "has_symbol compares the needle at every class that "
+                    "coeff() admits as a generator")
+    cf = [f for f in prog.fn_by_qn("SymEngine::coeff")
+          if len(f.get("params", ())) == 3]
+    if len(cf) != 1:
+        raise AnalysisBroken("coeff(b, x, n) not found")
+    admitted = set()
+    for n in walk(cf[0]["body"]):
+        if n.get("k") == "call" and n.get("n") == "is_a" and n.get("ta") \
+                and n.get("a") and any(
+                    y.get("k") == "ref" and y.get("d") == "param"
+                    and y.get("n") == cf[0]["params"][1]["n"]
+                    for y in walk(n["a"][0])):
+            admitted.add(strip_type(n["ta"][0]))
+    if not admitted:
+        raise AnalysisBroken("coeff(): no admitted generator classes found")
+    for X in sorted(admitted):
+        h = V.handlers(HS).get(X)
+        f = prog.functions.get(h) if h else None
+        compares = f is not None and any(
+            n.get("k") in ("call", "mcall") and n.get("n") in ("eq",
+                                                               "__eq__")
+            for n in walk(f["body"]))
+        R.instance("R39.7", short(X), sample={
+            "class": short(X), "handler": short(f["qn"]) + "(" + short(
+                f["params"][0]["t"]) + ")" if f else None,
+            "compares_needle": compares})
+        if not compares:
+            R.violation(
+                "R39.7", short(X), prog.loc(f) if f else prog.loc(cf[0]),
+                "coeff() admits a %s as generator, but the handler "
+                "HasSymbolVisitor uses for a %s never compares it with the "
+                "needle: has_symbol(e, %s) is false for every e, and "
+                "coeff(e, %s, 0) returns terms that contain the generator"
+                % (short(X), short(X), short(X).lower(),
+                   short(X).lower()))
+
+    # ---------------------------------------------------------------- R39.6
+    # dedicated traversal handlers of FreeSymbolsVisitor (fast paths that
+    # walk a dictionary instead of get_args()): every child is visited, and
+    # the visited-cache test that guards a child's visit is about that very
+    # child (an exponent skipped because its *base* was seen before loses
+    # the exponent's symbols)
+    R.rule("R39.6", "a dedicated free_symbols handler visits every child, "
+                    "each under a cache test about that child only")
+    from selib import sym as _sym6
+    child_members = {}
+    for cls in prog.concrete_subclasses(BASIC, include_self=False):
+        def symbolic(t):
+            # members that hold numbers only cannot contain symbols
+            m = re.search(r"RCP<const\s*(SymEngine::)?(\w+)", t or "")
+            return not (m and prog.derives("SymEngine::" + m.group(2),
+                                           "SymEngine::Number"))
+        child_members[cls] = [fd["n"] for c_, fd in prog.fields(cls)
+                              if c_ not in SKIP_DECL
+                              and holds_children(fd["t"])
+                              and symbolic(fd["t"])]
+    n6 = 0
+    for X, f in sorted(dfs.items()):
+        if binds(f):
+            continue
+        n6 += 1
+        key = "FreeSymbolsVisitor::bvisit(%s)" % short(X)
+        accepts = [n for n in walk(f["body"]) if n.get("k") == "mcall"
+                   and n.get("n") in ("accept", "apply")]
+        has_children = any(child_members.get(c) for c in
+                           prog.concrete_subclasses(X, include_self=True))
+        R.instance("R39.6", key, sample={"handler": key,
+                                         "child_visits": len(accepts)})
+        if has_children and not accepts and "get_args" not in show(
+                f["body"]):
+            R.violation(
+                "R39.6", key, prog.loc(f),
+                "%s visits none of the children of a %s: their symbols are "
+                "missing from free_symbols" % (key, short(X)))
+            continue
+        # iterators bound to v.insert(<child>)
+        ins = {}
+        for d in walk(f["body"]):
+            if d.get("k") == "decl":
+                for v_ in d.get("v", ()):
+                    i = v_.get("i")
+                    while i is not None and i.get("k") in ("cast", "ctor") \
+                            and len(i.get("a", ())) == 1:
+                        i = i["a"][0]
+                    if i is not None and i.get("k") == "mcall" \
+                            and i.get("n") == "insert" and i.get("a"):
+                        ins[v_["n"]] = show(i["a"][0]).replace(
+                            "->rcp_from_this()", "").replace(
+                            ".rcp_from_this()", "").strip("*() ")
+
+        def cb6(n, guards, line, f=f, key=key, ins=ins):
+            if not (n.get("k") == "mcall" and n.get("n") == "accept"):
+                return
+            child = show(n.get("o") or {}).replace("->", "").strip("*() ")
+            for g in _sym6.flatten_guards(guards):
+                if g[0] == "case":
+                    continue
+                for y in walk(g[0]):
+                    if y.get("k") == "ref" and y.get("n") in ins:
+                        other = ins[y["n"]].replace("->", "")
+                        if other and other != child:
+                            R.violation(
+                                "R39.6", key, prog.loc(f, n.get("l")),
+                                "%s visits `%s` only if `%s` had not been "
+                                "seen before: when the same %s occurs a "
+                                "second time, `%s` is skipped and its "
+                                "symbols are missing from free_symbols" % (
+                                    key, child, other, other, child))
+                            return
+        _sym6.visit_guarded(f["body"], cb6)
+    R.info["dedicated_traversal_handlers"] = n6
 
     # ---------------------------------------------------------------- R39.4
     CV = "SymEngine::CoeffVisitor"
